@@ -57,6 +57,9 @@ def tainted_names(fi: FuncInfo, extra_sources: Iterable[str] = (), nested: bool 
                 changed |= bind(n.target)
             elif isinstance(n, ast.NamedExpr) and expr_tainted(n.value):
                 changed |= bind(n.target)
+            elif isinstance(n, ast.Expr) and isinstance(n.value, ast.Call) and isinstance(n.value.func, ast.Attribute) and n.value.func.attr in ("append", "extend", "add", "insert", "update") and any(expr_tainted(a) for a in n.value.args):
+                # container.append(tainted): the container carries input-derived data
+                changed |= bind(n.value.func.value)
             elif isinstance(n, ast.FunctionDef) and n is not fi.node and nested:
                 # parameters of nested closures receive data derived from the outer inputs
                 for a in n.args.args + n.args.posonlyargs + n.args.kwonlyargs:
